@@ -579,6 +579,23 @@ def gen_cases(rng, tier):
             spk("seg-v0-badlen", 0, ref_segwit_encode(hrp, 0, rng.randbytes(L)))
         for L in (0, 1, 41, 42):
             spk("seg-len-out", 0, ref_segwit_encode(hrp, rng.choice((1, 2, 16)), rng.randbytes(L)))
+    # padding rules: an extra all-zero 5-bit group (5..7 padding bits) or non-zero padding bits, with a VALID checksum
+    def _seg_raw(hrp, v, groups):
+        const = 1 if v == 0 else BECH32M
+        data = [v] + groups
+        pm = _polymod(_hrp_expand(hrp) + data + [0] * 6) ^ const
+        chk = [(pm >> 5 * (5 - i)) & 31 for i in range(6)]
+        return (hrp + "1" + "".join(CHARSET[d] for d in data + chk)).encode()
+    for net in NETS:
+        hrp = HRP[net]
+        for v, L in ((0, 20), (1, 20), (1, 21), (2, 40), (16, 5), (1, 32), (0, 32)):
+            g = _convertbits(rng.randbytes(L), 8, 5, True)
+            spk("seg-overlong-padding", 0, _seg_raw(hrp, v, g + [0]))
+            if (8 * L) % 5:
+                spk("seg-nonzero-padding", 0, _seg_raw(hrp, v, g[:-1] + [g[-1] | 1]))
+    import c03
+    for e in c03.congruent_keys(3):              # 04||x0+p||y: on the curve modulo p, coordinate out of range
+        spk("key-x-congruent-mod-p", 0, e)
     for hrp in ("ltc", "b", "bcr", "tbc", "BC", "bc1", "x" * 10, "\x7f", " "):
         spk("seg-foreign-hrp", 0, ref_segwit_encode(hrp, 0, rng.randbytes(20)))
         spk("seg-foreign-hrp", 0, ref_segwit_encode(hrp, 1, rng.randbytes(32)))
